@@ -664,9 +664,17 @@ func c10InducedCheck(adj [][]bool) {
 	}
 }
 
+// c10InducedAll: induced paths / cycles on every labelled graph on exactly n vertices.
+func c10InducedAll(n int) {
+	c10InducedCheck(vgAdj(n, vgBits(n)))
+	rt.Reach("end")
+}
+
+func H_c10_induced5_q() { c10InducedAll(5) }
+
 func H_c10_inducedtrees_q() { c10InducedTrees(6) }
 func H_c10_inducedtrees_t() { c10InducedTrees(7) }
-func H_c10_induced6_t()     { c10InducedSparse(6, 7) }
+func H_c10_induced6_t()     { c10InducedAll(6) }
 
 func H_c10_cycles6_q() { c10CyclesDense(6, 10) }
 func H_c10_cycles6_t() { c10CyclesDense(6, 7) }
